@@ -349,7 +349,7 @@ func (x *Exec) mergeVal(cond string, va, vb Val, hint string) Val {
 }
 
 func (x *Exec) namePC(t string) string {
-	if len(t) < 30 || x.c.inContract > 0 {
+	if (strings.Count(t, "(") <= 1 && strings.Count(t, " ") <= 3) || x.c.inContract > 0 {
 		return t
 	}
 	n := x.c.freshConst("pc", "Bool")
